@@ -2,7 +2,8 @@
 //
 // case:  <adaptor> <kind> <mode> <elems>
 //   adaptor  en = enumerate, rv = reverse
-//   kind     vec std::vector<int>, arr std::array<int,N>, list std::list<int>, map std::map<int,int> (keys 0..n-1),
+//   kind     vec std::vector<int>, deq std::deque<int>, set std::set<int> (elems ascending; no mode l), str std::string (elems are
+//            character codes; no mode l), arr std::array<int,N>, list std::list<int>, map std::map<int,int> (keys 0..n-1),
 //            carr int[N] (N >= 1), il std::initializer_list<int>, fv nitro::lang::fixed_vector<int>
 //   mode     l lvalue (the body writes through what it is given), c const lvalue, r temporary inside the for statement,
 //            m std::move of a local, k CONST temporary (a function returning `const C` by value, called inside the for
@@ -60,7 +61,9 @@
 #include <functional>
 #include <initializer_list>
 #include <iterator>
+#include <deque>
 #include <list>
+#include <set>
 #include <map>
 #include <memory>
 #include <optional>
@@ -74,6 +77,8 @@ static int fr(int v) { return 3 * v + 7; }
 
 // the int an element stands for, and the int lvalue a write goes to
 static int val(const int& v) { return v; }
+static int val(const char& v) { return v; }
+static const void* addr(const char& v) { return &v; }
 static int val(const std::pair<const int, int>& p) { return p.second; }
 static int val(const std::reference_wrapper<int>& r) { return r.get(); }
 static int val(const std::reference_wrapper<const int>& r) { return r.get(); }
@@ -110,6 +115,9 @@ template <class C> std::string contents(const C& c)
     for (auto& e : c) { if (!r.empty()) r += ","; r += std::to_string(val(e)); }
     return r.empty() ? "." : r;
 }
+
+static void join(std::string& acc, const char* sep, const std::string& item) { if (!acc.empty()) acc += sep; acc += item; }
+static std::string dot(const std::string& s) { return s.empty() ? std::string(".") : s; }
 
 // ---- lvalue / const lvalue ranges ----
 template <class C> std::string en_lvalue(C& c, bool write)
@@ -249,7 +257,9 @@ template <class Mk> std::string run_container(bool en, char mode, Mk mk, std::si
     using C = decltype(mk());
     switch (mode)
     {
-    case 'l': { C c = mk(); return en ? en_lvalue(c, true) : rv_lvalue(c, true); }
+    case 'l':
+        if constexpr (std::is_same<C, std::set<int>>::value || std::is_same<C, std::string>::value) return "BADCASE";
+        else { C c = mk(); return en ? en_lvalue(c, true) : rv_lvalue(c, true); }
     case 'c': { const C c = mk(); return en ? en_lvalue(c, false) : rv_lvalue(c, false); }
     case 'r': return en ? en_rvalue(mk, n) : rv_rvalue(mk, n);
     case 'm': return en ? en_moved(mk(), n) : rv_moved(mk(), n);
@@ -319,6 +329,41 @@ template <class Mk> std::string run_reuse(const std::string& sc, char mode, Mk m
     {
         if (mode == 'l') { C c = mk(); auto r = nl::reverse(c); return scenario_on(sc, r, n, vrv); }
         if (mode == 'r') { auto r = nl::reverse(mk()); return scenario_on(sc, r, n, vrv); }
+    }
+    if (sc == "nest")   // enumerate(reverse(c)): the outer adaptor owns the inner one
+    {
+        Obs o;
+        if (mode == 'l')
+        {
+            C c = mk();
+            for (auto x : nl::enumerate(nl::reverse(c))) { if (o.count++ > n + 2) return "RUNAWAY"; o.visit_e(x.index(), val(x.value())); }
+        }
+        else if (mode == 'r')
+        {
+            for (auto x : nl::enumerate(nl::reverse(mk()))) { if (o.count++ > n + 2) return "RUNAWAY"; o.visit_e(x.index(), val(x.value())); }
+        }
+        else return "BADCASE";
+        return "V " + dot(o.vis) + " A - C -";
+    }
+    if (sc == "cad")    // begin()/end() on a CONST adaptor object (the forms that have const begin()/end())
+    {
+        std::string a, b;
+        if (mode == 'l')
+        {
+            C c = mk();
+            const auto r = nl::reverse(c);
+            a = visits_rv(r, n);
+            b = a;
+        }
+        else if (mode == 'r')
+        {
+            const auto r = nl::reverse(mk());
+            const auto e = nl::enumerate(mk());
+            a = visits_rv(r, n);
+            b = visits_en(e, n);
+        }
+        else return "BADCASE";
+        return "V2 " + a + " " + b;
     }
     if ((sc == "enen" || sc == "enrv") && mode == 'l')
     {
@@ -408,8 +453,6 @@ template <bool OWNED, class H, class Body> bool over(char ad, H& h, std::size_t 
     if (ad == 'r') return each_r<OWNED>(make_r<OWNED>(h), n, body);
     return each_e<OWNED>(make_e<OWNED>(h), n, body);
 }
-static void join(std::string& acc, const char* sep, const std::string& item) { if (!acc.empty()) acc += sep; acc += item; }
-static std::string dot(const std::string& s) { return s.empty() ? std::string(".") : s; }
 
 template <bool OWNED, class H> std::string run_multi(const std::string& sc, H& ha, H& hb, H* hc, std::size_t n)
 {
@@ -600,6 +643,20 @@ template <bool EN, class Ad> std::string manual(Ad& a, std::size_t n)
         std::for_each(a.begin(), a.end(), [&](auto x) { if (k++ <= lim) join(fe_, ",", std::to_string(x.index()) + ":" + std::to_string(val(x.value()))); });
     else
         std::for_each(a.begin(), a.end(), [&](auto& x) { if (k++ <= lim) join(fe_, ",", std::to_string(val(x))); });
+    if constexpr (EN)
+    {
+        // const iterator (operator*() const) and const proxy (index() const, value() const)
+        std::string ck;
+        k = 0;
+        for (auto it = a.begin(); it != a.end(); ++it)
+        {
+            if (k++ > lim) return "RUNAWAY";
+            const auto cit = it;
+            const auto px = *cit;
+            join(ck, ",", std::to_string(px.index()) + ":" + std::to_string(val(px.value())));
+        }
+        fe_ = dot(fe_) + " K " + dot(ck);
+    }
     std::string r = "MI " + dot(pre) + " " + dot(post) + " " + dot(old) + " " + dot(c1) + " " + dot(c2) + " " + dot(fe_);
     if constexpr (!EN)
     {
@@ -655,10 +712,15 @@ struct ILT
 static int tag_of(const std::any& a) { return a.type() == typeid(int) ? std::any_cast<int>(a) : -1; }
 static int tag_of(const Value& v) { return v.tag; }
 static int tag_of(const ILT& v) { return v.tag; }
+static int tag_of(const std::unique_ptr<int>& p) { return p ? *p : -9; }
 template <class E, class C> C make_elems(const Elems& e)
 {
     C c;
-    for (int v : e) c.push_back(E(v));
+    for (int v : e)
+    {
+        if constexpr (std::is_same<E, std::unique_ptr<int>>::value) c.push_back(std::make_unique<int>(v));
+        else c.push_back(E(v));
+    }
     return c;
 }
 template <bool EN, class R> std::string et_loop(R&& range, std::size_t n)
@@ -680,6 +742,12 @@ template <bool EN, class E, class C> std::string et_container(char mode, const E
     if (mode == 'l')
     {
         C c = make_elems<E, C>(e);
+        if constexpr (std::is_same<E, std::unique_ptr<int>>::value)
+        {
+            // move-only elements: move each one out through the adaptor and put a new one (tag + 1000) in its place
+            if constexpr (EN) { for (auto x : nl::enumerate(c)) { auto old = std::move(x.value()); x.value() = std::make_unique<int>(*old + 1000); } }
+            else { for (auto& x : nl::reverse(c)) { auto old = std::move(x); x = std::make_unique<int>(*old + 1000); } }
+        }
         if constexpr (EN) return et_loop<EN>(nl::enumerate(c), e.size());
         else return et_loop<EN>(nl::reverse(c), e.size());
     }
@@ -705,7 +773,10 @@ template <bool EN, class E> std::string et_kind(const std::string& k, char mode,
 {
     if (k == "vec") return et_container<EN, E, std::vector<E>>(mode, e);
     if (k == "list") return et_container<EN, E, std::list<E>>(mode, e);
-    if (k == "il" && mode == 'r') return et_braced<EN, E>(e);
+    if constexpr (!std::is_same<E, std::unique_ptr<int>>::value)
+    {
+        if (k == "il" && mode == 'r') return et_braced<EN, E>(e);   // a braced list copies its elements: not for move-only ones
+    }
     return "BADCASE";
 }
 template <bool EN> std::string et_type(const std::string& t, const std::string& k, char mode, const Elems& e)
@@ -713,6 +784,7 @@ template <bool EN> std::string et_type(const std::string& t, const std::string& 
     if (t == "any") return et_kind<EN, std::any>(k, mode, e);
     if (t == "val") return et_kind<EN, Value>(k, mode, e);
     if (t == "ilt") return et_kind<EN, ILT>(k, mode, e);
+    if (t == "up") return et_kind<EN, std::unique_ptr<int>>(k, mode, e);
     return "BADCASE";
 }
 
@@ -905,6 +977,9 @@ static std::string run_case(const std::vector<std::string>& w)
     std::size_t n = e.size();
     if (k == "vec") return run_container(en, mode, [&e] { return std::vector<int>(e.begin(), e.end()); }, n);
     if (k == "list") return run_container(en, mode, [&e] { return std::list<int>(e.begin(), e.end()); }, n);
+    if (k == "deq") return run_container(en, mode, [&e] { return std::deque<int>(e.begin(), e.end()); }, n);
+    if (k == "set" && mode != 'l') return run_container(en, mode, [&e] { return std::set<int>(e.begin(), e.end()); }, n);
+    if (k == "str" && mode != 'l') return run_container(en, mode, [&e] { std::string t; for (int x : e) t.push_back(static_cast<char>(x)); return t; }, n);
     if (k == "map")
         return run_container(en, mode, [&e] { std::map<int, int> m; for (std::size_t i = 0; i < e.size(); i++) m.emplace(static_cast<int>(i), e[i]); return m; }, n);
     if (k == "fv")
